@@ -97,8 +97,14 @@ def explore_hw(build, make_observer, cfg, tier, seed, *, only=None, max_states=1
         comp = compile_harness(h, only=only)
         if isinstance(cfg, dict) and cfg.get("elab_twice"):
             # "simulate, then synthesise": the SAME instance is elaborated again and the behaviour of the
-            # second elaboration is what gets explored
-            comp = compile_harness(h, only=only)
+            # second elaboration is what gets explored.  Whether a second elaboration is POSSIBLE is C19's
+            # question, not this property's: if it fails, the configuration is skipped here.
+            try:
+                comp = compile_harness(h, only=only)
+            except ToolError:
+                raise
+            except Exception as e:
+                return dict(refused=True, refusal=dict(type=type(e).__name__, message="second elaboration failed (C19's subject)", where=""))
     except ToolError as e:
         raise ToolFailure(f"netlist: {e}")
     except Exception as e:
